@@ -364,7 +364,7 @@ def gen_curve(rng, n, tier):
     L = []
     for (pfx, E) in (("g1_", E1), ("g2_", E2)):
         pool = point_pool(E, rng, max(3, n // 6))
-        def J(p, zmode=None): return E.jac(p, rng, zmode or rng.choice(["rand", "rand", "one", "canon"]))
+        def J(p, zmode=None): return E.jac(p, rng, zmode or rng.choice(["rand", "rand", "one", "canon", "limbs"]))
         cases = []
         for _ in range(n):
             cases.append((rng.choice(pool), rng.choice(pool)))
@@ -803,6 +803,9 @@ def gen_encoding(rng, n, tier):
         for _ in range(n):
             x = F.rand(rng)
             L.append("fromx %s %s %d" % (g, F.hex(x), rng.randrange(2)))
+            L.append("fromx %s %s %d %s" % (g, F.hex(x), rng.randrange(2), rng.choice(["a", "b"])))
+        xg = E.gen[0]
+        for al_ in ("a", "b"): L.append("fromx %s %s 0 %s" % (g, F.hex(xg), al_))
         L.append("fromx %s %s 0" % (g, F.hex(F.zero)))
     return L
 
@@ -853,7 +856,13 @@ def gen_capi(rng, n, tier):
     L = ["capi consts"]
     for (g, E, hs) in (("g1", E1, 48), ("g2", E2, 96)):
         pool = [None, E.gen, E.rand_subgroup_point(rng, 32), E.rand_curve_point(rng)]
-        def J(p): return E.jac(p, rng, rng.choice(["rand", "one", "canon"]))
+        def J(p): return E.jac(p, rng, rng.choice(["rand", "one", "canon", "limbs"]))
+        # representatives whose z has stored limbs with a zero half (an identity test that looks at part of the words), both operand orders
+        for p in pool[1:3]:
+            for _ in range(2):
+                L.append("capi add_alias_b %s %s %s" % (g, E.jac(p, rng, "limbs"), E.jac(rng.choice(pool[1:]), rng, "rand")))
+                L.append("capi add %s %s %s" % (g, E.jac(rng.choice(pool[1:]), rng, "rand"), E.jac(p, rng, "limbs")))
+                L.append("capi equal %s %s %s" % (g, E.jac(p, rng, "limbs"), E.jac(p, rng, "limbs")))
         for _ in range(n):
             p, s = rng.choice(pool), rng.choice(pool)
             L.append("capi add %s %s %s" % (g, J(p), J(s)))
